@@ -64,7 +64,7 @@ func directed() []struct {
 
 // Run generates the histories of one check run. mode = "C09" | "C10" | "C11".
 func Run(e *Env, mode string) error {
-	e.Header = "From Coq Require Import NArith ZArith List.\nFrom V Require Import Base.Outcome Forkchoice.Run.\nImport ListNotations.\nLocal Open Scope N_scope.\n" +
+	e.Header = "From Coq Require Import NArith ZArith List.\nFrom V Require Import Base.Outcome Forkchoice.ProtoArray Forkchoice.Step Forkchoice.Run.\nImport ListNotations.\nLocal Open Scope N_scope.\n" +
 		"Definition mismatches := mismatches_" + map[string]string{"C09": "c09", "C10": "c10", "C11": "c11"}[mode] + "."
 	e.CaseType = "fcase"
 	e.ShardBytes = 90000
